@@ -418,8 +418,75 @@ func steerPrematureAnswer(res *vlib.Result, ctxID int, withClient bool) {
 	res.Obs("steered_scenarios", 1)
 }
 
+// scramble: K clients are released at the same instant against fewer waiting
+// proxies of their pool (typically one): every request must get its response —
+// exactly as many matches as proxies, the rest denied — and nothing is left over.
+func scrambleRounds(res *vlib.Result, r *vlib.Rand, ctxID, rounds int) {
+	b := newVBroker(ctxID, nil, "", "")
+	for round := 0; round < rounds; round++ {
+		name := fmt.Sprintf("scramble/%d/%d", ctxID, round)
+		nProx := r.PickInt([]int{1, 1, 1, 2})
+		k := nProx + r.Range(1, 7)
+		tr := newTracker()
+		var matchedPolls int32
+		for i := 0; i < nProx; i++ {
+			sid := fmt.Sprintf("sc%d-%d-%d", ctxID, round, i)
+			tr.run("proxy-poll", sid, func() string {
+				pr := b.poll(&pollSpec{Sid: sid, Type: "standalone", NAT: NATUnrestricted})
+				if pr.Offer != "" {
+					atomic.AddInt32(&matchedPolls, 1)
+					b.answer(sid, "A-"+sid)
+					return "offer"
+				}
+				return fmt.Sprintf("%d %s", pr.HTTP, pr.Status)
+			})
+		}
+		if !waitUntil(5*time.Second, func() bool { return b.debugAvailable() == nProx }) {
+			res.Inconcl(name + ": proxies did not register")
+			return
+		}
+		start := make(chan struct{})
+		var answered, denied, other int32
+		for j := 0; j < k; j++ {
+			off := fmt.Sprintf("SC-OFFER-%d-%d-%d", ctxID, round, j)
+			tr.run("client-poll", "", func() string {
+				<-start
+				cr := b.client(&clientSpec{Transport: "post", NAT: NATRestricted, Offer: off})
+				switch {
+				case cr.Answer != "":
+					atomic.AddInt32(&answered, 1)
+				case cr.Error == "no snowflake proxies currently available":
+					atomic.AddInt32(&denied, 1)
+				default:
+					atomic.AddInt32(&other, 1)
+				}
+				return cr.Answer + cr.Error + cr.Raw
+			})
+		}
+		close(start)
+		rec := map[string]interface{}{"case": name, "scenario": "scramble", "proxies": nProx, "simultaneous_clients": k}
+		if !tr.waitAll(40 * time.Second) {
+			judgeOpen(res, name, tr, rec)
+			return
+		}
+		res.Eval(1)
+		res.Obs("scramble_rounds", 1)
+		res.Obs("scramble_clients", int64(k))
+		if int(answered) != nProx || int(denied) != k-nProx || other != 0 {
+			rec["answered"], rec["denied"], rec["other"] = answered, denied, other
+			rec["requests"] = tr.snapshot()
+			res.Violate("c04:scramble-outcome", fmt.Sprintf("%s: %d simultaneous clients for %d waiting proxies: %d answered, %d denied, %d other outcomes", name, k, nProx, answered, denied, other), rec)
+			return
+		}
+		if round == rounds-1 {
+			checkQuiescent(res, name, b, rec)
+		}
+	}
+	res.Distinct(fmt.Sprintf("scramble/%d", ctxID))
+}
+
 func TestVerifC04Steered(t *testing.T) {
-	res := vlib.NewResult("C04", "inpkg-broker-c04-steered", "deterministic steered scenarios: for each 10 s boundary (proxy-poll timeout vs client pop; client timeout vs answer) the opposing event is placed before / inside / after the window using verif hooks as callbacks, plus premature answers; each repeated in several broker instances; non-trivial = scenario executed to a verdict, distinct by (window, order)")
+	res := vlib.NewResult("C04", "inpkg-broker-c04-steered", "scrambles (K simultaneous clients for fewer waiting proxies, many rounds) and deterministic steered scenarios: for each 10 s boundary (proxy-poll timeout vs client pop; client timeout vs answer) the opposing event is placed before / inside / after the window using verif hooks as callbacks, plus premature answers; each repeated in several broker instances; non-trivial = scenario executed to a verdict, distinct by (window, order)")
 	defer res.Finish()
 	c04hooks.install(hProxyTimeout, hClientPopped, hClientTimeout, hAnswerSend)
 	reps := vlib.Scale(2, 8)
@@ -438,8 +505,17 @@ func TestVerifC04Steered(t *testing.T) {
 			go func(id int, wc bool) { defer wg.Done(); steerPrematureAnswer(res, 3000+id, wc) }(id, wc)
 		}
 	}
+	root := vlib.NewRand(vlib.Seed()).Split("c04scramble")
+	for c := 0; c < vlib.Scale(8, 32); c++ {
+		wg.Add(1)
+		go func(c int) {
+			defer wg.Done()
+			scrambleRounds(res, root.SplitN("ctx", c), 4000+c, vlib.Scale(150, 600))
+		}(c)
+	}
 	wg.Wait()
 	res.Note("hook_hits", verifhook.AllHits())
+	res.RequireObs("scramble_rounds", int64(vlib.Scale(8, 32)*vlib.Scale(150, 600)*9/10))
 	res.RequireObs("steered_window_hits_proxy_timeout", int64(reps))
 	res.RequireObs("steered_window_hits_client_timeout", int64(reps))
 	res.RequireObs("steered_scenarios", int64(reps*8))
